@@ -3,7 +3,7 @@ import os, re
 from .. import facts, cg, cfg as cfgm
 from ..facts import AnalysisBroken, strip, sub, locstr
 
-QUICK_TUS_PREFIX = ('src/uscxml/transform/', 'src/apps/uscxml-transform.cpp', 'src/uscxml/util/',
+QUICK_TUS_PREFIX = ('src/uscxml/debug/InterpreterIssue', 'src/uscxml/interpreter/BasicContentExecutor', 'src/uscxml/transform/', 'src/apps/uscxml-transform.cpp', 'src/uscxml/util/',
                     'src/uscxml/interpreter/InterpreterImpl.cpp', 'src/uscxml/interpreter/FastMicroStep.cpp',
                     'src/uscxml/interpreter/LargeMicroStep.cpp')
 
@@ -96,6 +96,8 @@ def order_sensitive(fb, body):
             bt = (base or {}).get('t', '')
             if not re.search(r'std::(set|map|multiset|multimap)<', bt):
                 return 'appends to a sequence'
+        if c['q'].startswith('uscxml::InterpreterMonitor::') and name not in ('getLogger', 'copyToInvokers', 'InterpreterMonitor', '~InterpreterMonitor'):
+            return 'notifies a monitor (' + name + ')'
         if not c.get('ext') and c['m'] in fb.funcs and not c['q'].startswith('uscxml::X::'):
             f = fb.funcs[c['m']]
             if any(p['t'].startswith('std::ostream') or 'basic_ostream' in p['t'] for p in f.d.get('params', [])):
@@ -121,7 +123,8 @@ def scan(fb, funcs, rep, control=False):
                             break
                     res['ptrstream'].append((f, n, log_sink(top)))
                 q = c['q']
-                if q in NONDET_EXT or q in NONDET_REPO:
+                if q in NONDET_EXT or q in NONDET_REPO or (q.startswith('std::hash<') and q.endswith('::operator()')):
+                    # std::hash: [hash.requirements] demands equal results only within one execution of the program
                     res['nondet'].append((f, n, q))
                 if n['k'] == 'CXXMemberCallExpr' and q.split('::')[-1] in ('begin', 'rbegin', 'cbegin', 'crbegin'):
                     me = n['c'][0]
@@ -247,7 +250,8 @@ def run(rep, tier):
             work.append(t)
     closure = [fb.funcs[m] for m in pred]
     # the micro-step engines themselves (trace determinism: address-ordered iteration and ordering decisions on addresses)
-    engines = [f for f in fb.funcs.values() if f.file.startswith(('src/uscxml/interpreter/LargeMicroStep', 'src/uscxml/interpreter/FastMicroStep'))]
+    engines = [f for f in fb.funcs.values() if f.file.startswith(('src/uscxml/interpreter/LargeMicroStep', 'src/uscxml/interpreter/FastMicroStep',
+                                                                     'src/uscxml/interpreter/BasicContentExecutor', 'src/uscxml/debug/InterpreterIssue'))]
     if len(engines) < 40:
         raise AnalysisBroken('only %d engine functions found' % len(engines))
     rep.covered(tus=len(tus), extracted=fb.extracted, functions_total=len(fb.funcs), transformer_roots=len(roots),
@@ -365,6 +369,20 @@ def run(rep, tier):
                 then = n['c'][1]
                 if any(s.get('callee', {}).get('q') == 'uscxml::Data::clear' for s in sub(then)):
                     guard = n
+    # nothing is printed under the presence test of the cache file: a cold and a warm run print the same lines
+    opens = 0
+    for n in init.walk():
+        if n['k'] != 'IfStmt' or not any(s.get('callee', {}).get('q', '').endswith('::is_open') for s in sub(n['c'][0])):
+            continue
+        opens += 1
+        outs = [s for br in n['c'][1:] if br for s in sub(br)
+                if s.get('callee', {}).get('q', '') in ('uscxml::Logger::log', 'uscxml::StreamLogger::operator<<')
+                or s.get('ref', {}).get('q', s.get('ref', {}).get('name', '')) in ('std::cout', 'std::cerr', 'cout', 'cerr')]
+        rep.check(not outs, 'R20.4', 'cache-presence|silent', locstr(outs[0] if outs else n),
+                  'InterpreterImpl::init prints nothing under the test whether an earlier run left a cache file%s' % (
+                      '' if not outs else '; but it logs `%s`: the first and the later runs of one document print different traces' % ' '.join(fb.text(outs[0]).split())[:80]))
+    if assign is not None and not opens:
+        raise AnalysisBroken('R20.4: the cache is loaded but the presence test (is_open) of the cache file in InterpreterImpl::init was not found')
     if assign is None:
         if consumers:
             raise AnalysisBroken('R20.4: cache has consumers but the load site `_cache = Data::fromJSON(..)` in InterpreterImpl::init was not found')
